@@ -4,27 +4,36 @@ Model of the life of an explicit refresh request (C19, "a metadata refresh that 
 answered"): requester → `MetadataWorker` (producer) → merge-channel slot → `ClusterWorker` (consumer) → reply.
 
 * `request`        ← `Cluster::refresh_metadata` (cluster/worker.rs:197-211): a fresh oneshot reply channel (here: a fresh
-                     id) is sent over the bounded `refresh_channel`.
+                     id) is sent over the bounded `refresh_channel`. If the metadata worker is gone the mpsc receiver is
+                     dead: `send` fails and the `.expect` at 205 panics - the request dies with its requester (`dropped`).
 * `recvRequest`    ← `self.refresh_channel.recv()` + `set_pending_request` (metadata/worker.rs:574-577, 700-704,
-                     866-871): at most one request is pending; the others wait in the channel (FIFO).
-* `fetchOk m`      ← a full fetch succeeded: `publish_metadata` (853-862) takes the pending request and runs
-                     `send_update(|slot| MetadataUpdate::merge_metadata(slot, metadata, response_chan))`. If the cluster
-                     worker is gone `modify` returns `SendError` WITHOUT running the closure, which drops the reply
-                     channel it owns (merge_channel.rs:106-108).
-* `fetchErrNoCc`   ← `work_without_cc`: establishing a control connection failed; the error goes to the requester
-                     (556-563).
-* `fetchErrOnCc`   ← `work_on_cc`: the full fetch failed; the request stays pending and is retried while a new control
-                     connection is established (653-662).
-* `merge op`       ← the other `send_update` calls (topology / client routes / status hints: 666, 679, 806, 823).
-* `consumerTake`   ← `maybe_metadata_update = self.metadata_updates.recv()` (cluster/worker.rs:325) followed by
-                     `apply_metadata_update` up to its awaits (392-468): the update has left the slot, its reply channels
-                     are held by the running handler (a `select!` branch body runs to completion before the next `recv`).
-* `consumerFinish` ← the end of `apply_metadata_update` (471-476): EVERY entry of `refresh_responses` is answered `Ok(())`
-                     after the new state was published. A partial update carries no reply channel (424-443).
-* `consumerGone`   ← the cluster worker returns (its other `select!` branches, 299, 330, 342, 357) or is dropped at an
-                     await of the handler: the receiver, the slot's contents and the handler's channels are dropped.
-* `producerGone`   ← the metadata worker stops with a request pending (e.g. `ControlConnectionEvent::Shutdown`, 712-721,
-                     the code's own "known issue"): the pending reply channel is dropped.
+                     866-871). The Rust receives a request only when no full fetch / establishment attempt is running
+                     (`if !full_fetch_in_flight`, 700; in `work_without_cc` the `select!` at 571 runs between attempts) and
+                     then starts one right away (`plan.note_full_needed()` + `start_due_fetches` at the loop top, 636;
+                     the next loop iteration of `work_without_cc`). `set_pending_request` only `debug_assert`s that nothing
+                     is pending and OVERWRITES: the model does the same (an overwritten request is `dropped`); that this never
+                     happens is a theorem (`Props.C19.pending_never_overwritten`), not a guard.
+* `periodicFetch`  ← a full fetch started with no request pending (refresh interval / server events / repair cadence).
+* `fetchOk m`      ← the running full fetch / establishment succeeded: `publish_metadata` (853-862) takes the pending
+                     request and runs `send_update(|slot| merge_metadata(slot, metadata, response_chan))`. If the cluster
+                     worker is gone `modify` returns `SendError` WITHOUT running the closure, which drops the reply channel
+                     it owns (merge_channel.rs:106-108), and `publish_metadata` returns `Break`: the metadata worker stops.
+* `fetchErrNoCc`   ← `work_without_cc`: the attempt failed; the error goes to the requester (556-563).
+* `fetchErrOnCc`   ← `work_on_cc`: the full fetch failed (653-662); the request stays pending and an establishment attempt
+                     (which fetches, too) follows at once - still `fetching`.
+* `merge op`       ← the other `send_update` calls (topology / client routes / status hints: 666, 679, 806, 823); a
+                     `SendError` stops the metadata worker (`return ControlFlow::Break(())`).
+* `consumerTake`   ← `self.metadata_updates.recv()` (cluster/worker.rs:325) + `apply_metadata_update` up to its awaits
+                     (392-468): the update has left the slot, its reply channels are held by the running handler (a `select!`
+                     branch body runs to completion before the next `recv`).
+* `consumerFinish` ← the end of `apply_metadata_update` (471-476): EVERY entry of `refresh_responses` is answered `Ok(())`.
+* `consumerGone`   ← the cluster worker returns (299, 330, 342, 357) or its task is dropped at an await of the handler:
+                     the handler's channels are dropped; `Drop for Receiver` only sets `receiver_dropped`
+                     (merge_channel.rs:178-182) - the slot's contents live on in the shared `Arc` until the sender goes too.
+* `producerGone`   ← the metadata worker stops (e.g. `ControlConnectionEvent::Shutdown`, 712-721, the code's own "known
+                     issue"; or a `SendError`): the pending reply channel, the `refresh_channel` receiver with every
+                     request still queued in it, and the merge-channel `Sender` are dropped.
+When both endpoints are gone the shared slot is freed and the reply channels in it are dropped.
 -/
 namespace ScyllaVerif.RefreshFlow
 open ScyllaVerif.MetaUpdate
@@ -36,6 +45,8 @@ structure Flow where
   waiting : List Nat := []
   /-- `MetadataWorker::pending_request`. -/
   pending : Option Nat := none
+  /-- a full fetch / establishment attempt is running (`full_fetch_in_flight`, or inside `establish`). -/
+  fetching : Bool := false
   /-- the merge channel's slot. -/
   slot : Option Update := none
   /-- reply channels held by the running `apply_metadata_update`. -/
@@ -55,6 +66,7 @@ def init : Flow := {}
 inductive Ev where
   | request
   | recvRequest
+  | periodicFetch
   | fetchOk (m : Meta)
   | fetchErrNoCc
   | fetchErrOnCc
@@ -70,25 +82,38 @@ def stripRefresh : Op → Op
   | .metadata m _ => .metadata m none
   | op => op
 
+/-- The metadata worker's task ends: pending request, queued requests and the `Sender` are dropped; if the receiver is
+gone as well the shared slot is freed. -/
+def stopProducer (s : Flow) : Flow :=
+  let s' := { s with producerGone := true, fetching := false, pending := none, waiting := [],
+                     dropped := s.dropped ++ s.pending.toList ++ s.waiting }
+  if s'.consumerGone then { s' with slot := none, dropped := s'.dropped ++ refreshIds s'.slot } else s'
+
 def step (s : Flow) : Ev → Flow
-  | .request => { s with next := s.next + 1, waiting := s.waiting ++ [s.next] }
+  | .request =>
+    if s.producerGone then { s with next := s.next + 1, dropped := s.dropped ++ [s.next] }
+    else { s with next := s.next + 1, waiting := s.waiting ++ [s.next] }
   | .recvRequest =>
-    if s.producerGone then s else
-    match s.pending, s.waiting with
-    | none, r :: rest => { s with pending := some r, waiting := rest }
-    | _, _ => s
+    if s.producerGone || s.fetching then s else
+    match s.waiting with
+    | r :: rest =>
+      { s with pending := some r, waiting := rest, fetching := true, dropped := s.dropped ++ s.pending.toList }
+    | [] => s
+  | .periodicFetch => if s.producerGone || s.fetching then s else { s with fetching := true }
   | .fetchOk m =>
-    if s.producerGone then s
+    if s.producerGone || !s.fetching then s
     else if s.consumerGone then
-      -- SendError: the closure (owning the reply channel) is dropped unrun
-      { s with pending := none, dropped := s.dropped ++ s.pending.toList }
-    else { s with slot := mergeMetadata s.slot m s.pending, pending := none }
+      -- SendError: the closure (owning the reply channel) is dropped unrun; `Break`: the worker stops
+      stopProducer s
+    else { s with slot := mergeMetadata s.slot m s.pending, pending := none, fetching := false }
   | .fetchErrNoCc =>
-    if s.producerGone then s else
-    { s with pending := none, answeredErr := s.answeredErr ++ s.pending.toList }
+    if s.producerGone || !s.fetching then s else
+    { s with pending := none, fetching := false, answeredErr := s.answeredErr ++ s.pending.toList }
   | .fetchErrOnCc => s
   | .merge op =>
-    if s.producerGone || s.consumerGone then s else { s with slot := apply s.slot (stripRefresh op) }
+    if s.producerGone then s
+    else if s.consumerGone then stopProducer s
+    else { s with slot := apply s.slot (stripRefresh op) }
   | .consumerTake =>
     if s.consumerGone || s.busy then s else
     match s.slot with
@@ -99,11 +124,9 @@ def step (s : Flow) : Ev → Flow
     { s with answeredOk := s.answeredOk ++ s.applying, applying := [], busy := false }
   | .consumerGone =>
     if s.consumerGone then s else
-    { s with consumerGone := true, busy := false, slot := none, applying := [],
-             dropped := s.dropped ++ s.applying ++ refreshIds s.slot }
-  | .producerGone =>
-    if s.producerGone then s else
-    { s with producerGone := true, pending := none, dropped := s.dropped ++ s.pending.toList }
+    let s' := { s with consumerGone := true, busy := false, applying := [], dropped := s.dropped ++ s.applying }
+    if s'.producerGone then { s' with slot := none, dropped := s'.dropped ++ refreshIds s'.slot } else s'
+  | .producerGone => if s.producerGone then s else stopProducer s
 
 def run (s : Flow) (evs : List Ev) : Flow := evs.foldl step s
 
@@ -116,5 +139,9 @@ def places (s : Flow) (id : Nat) : Nat :=
 def isAlive : Ev → Bool
   | .consumerGone | .producerGone => false
   | _ => true
+
+/-- Nothing is in flight: every issued request has been answered or dropped. -/
+def Quiet (s : Flow) : Prop :=
+  s.waiting = [] ∧ s.pending = none ∧ refreshIds s.slot = [] ∧ s.applying = []
 
 end ScyllaVerif.RefreshFlow
